@@ -63,7 +63,7 @@ FAMILIES = {
     # fractional quantities (halves) on the short window 0,1,31,32
     'frac_q': dict(cfg=dict(dayset=3, buy=(0, 1, 3), sell=(0, 1, 3), qden=2), variants='none', bases=1),
     # splits / unsplits at every position: one split cell, ratios 2, 3, 1/2, 3/2
-    'split_q': dict(cfg=dict(dayset=3, splits=(1, 2, 3, 4), maxsplits=1, timings=BOTH), variants='none', bases=1),
+    'split_q': dict(cfg=dict(dayset=3, splits=(1, 2, 3, 4), maxsplits=1, timings=BOTH), variants='orders', bases=1),
     # eight slots, at most 5 non-empty cells, quantities 0..3
     'core_t': dict(cfg=dict(dayset=2, buy=(0, 1, 2, 3), sell=(0, 1, 2, 3), maxcells=5), variants='none', bases=6),
     'split_t': dict(cfg=dict(dayset=1, splits=(1, 2, 3, 4), maxsplits=2, maxcells=5, timings=BOTH), variants='none', bases=2),
@@ -80,6 +80,9 @@ FAMILIES = {
                                     splits=(1, 3), maxsplits=1, maxcells=4, timings=BOTH), variants='none', bases=1, obs=True),
     # two securities: independence
     'two_q': dict(cfg=dict(secs='SecSeqAB', dayset=7, buy=(0, 2), sell=(0, 1)), variants='orders', bases=1),
+    # two securities, a split of either at every position: one security's split never touches the other
+    'two_split_q': dict(cfg=dict(secs='SecSeqAB', dayset=7, buy=(0, 2), sell=(0, 1), splits=(1,), maxsplits=1, timings=BOTH),
+                        variants='orders', bases=1),
     'two_t': dict(cfg=dict(secs='SecSeqAB', dayset=5, buy=(0, 1, 2), sell=(0, 1), maxcells=3), variants='orders', bases=1),
 }
 
@@ -318,5 +321,27 @@ def calendar_family():
     s = harness('replay_calendar', ['--in', m['out'], '--out', out])
     r = {'name': key, 'tlc': m, 'summary': s, 'findings': read_ndjson(out), 'obs': None}
     log(f'[replay] MC_Calendar: {s["records"]} dates, {s["counters"].get("executions", 0)} executions, {s["findings"]} deviations')
+    _family_cache[key] = r
+    return r
+
+
+# --------------------------------------------------------------------------------------------
+# MC_Fx (C08)
+
+def fx_family(tier):
+    key = 'fx_' + tier
+    if key in _family_cache:
+        return _family_cache[key]
+    m = tlc('MC_Fx', os.path.join('cfg', 'MC_Fx.cfg'), workers=8, timeout=3000)
+    log(f'[tlc] MC_Fx: {m["states"]} distinct states, {m["transitions"]} transitions ({"cached" if m["cached"] else str(m["wall_s"]) + "s"})')
+    common.build_cli()
+    wd = workdir('fx')
+    out = os.path.join(wd, 'findings.ndjson')
+    s = harness('replay_fx', ['--in', m['out'], '--out', out, '--rates', os.path.join(common.REPO, 'crates/cgt-money/resources/rates'),
+                              '--cli', common.CGT_TOOL, '--cli-sample', '25' if tier == 'quick' else '400'])
+    s['counters']['executions'] = s['counters'].get('executions', 0) + s['counters'].get('cli_runs', 0)
+    r = {'name': key, 'tlc': m, 'summary': s, 'findings': read_ndjson(out), 'obs': None}
+    log(f'[replay] MC_Fx: {s["records"]} behaviours, {s["counters"].get("executions", 0)} executions '
+        f'({s["counters"].get("cli_runs", 0)} through cgt-tool), {s["findings"]} deviations')
     _family_cache[key] = r
     return r
